@@ -141,6 +141,7 @@ Fixpoint closedR (C : circuit) (r : list nat) : Prop :=
 Record Inv (C : circuit) (l : list nat) : Prop := {
   inv_closed : closedR C (rev l);
   inv_lt : forall x, In x l -> (x < length C)%nat;
+  inv_nodup : NoDup l;
 }.
 
 Lemma memN_In x l : memN x l = true <-> In x l.
@@ -152,57 +153,74 @@ Qed.
 
 Lemma Inv_snoc C l i :
   Inv C l -> (i < length C)%nat -> (forall c, In c (children (nth i C FalseN)) -> In c l) ->
-  Inv C (l ++ [i]).
+  ~ In i l -> Inv C (l ++ [i]).
 Proof.
-  intros [Hc Hl] Hi Hch. split.
+  intros [Hc Hl Hn] Hi Hch Hni. split.
   - rewrite rev_app_distr. cbn [rev app closedR]. split; [|exact Hc].
     intros c Hin. apply in_rev. rewrite rev_involutive. now apply Hch.
   - intros x Hx. apply in_app_iff in Hx. destruct Hx as [Hx|[<-|[]]]; [now apply Hl|exact Hi].
+  - apply NoDup_app_intro; [exact Hn|repeat constructor; intros []|].
+    intros x Hx [<-|[]]. contradiction.
 Qed.
 
 Lemma dfs_spec C (Hok : idx_ok C = true) : forall fuel i done,
   (i < length C)%nat -> (i < fuel)%nat -> Inv C done ->
   exists ext, dfs fuel C i done = done ++ ext /\ Inv C (done ++ ext) /\ In i (done ++ ext)
               /\ (forall x, In x ext -> (x <= i)%nat)
-              /\ (~ In i done -> exists ext', ext = ext' ++ [i]).
+              /\ (~ In i done -> exists ext', ext = ext' ++ [i])
+              /\ (forall x, In x ext -> x = i \/ exists y, In y ext /\ In x (children (nth y C FalseN))).
 Proof.
   induction fuel as [|f IHf]; intros i done Hi Hfuel Hinv; [lia|].
   cbn [dfs]. destruct (memN i done) eqn:Em.
   - apply memN_In in Em. exists []. rewrite app_nil_r.
     split; [reflexivity|]. split; [exact Hinv|]. split; [exact Em|]. split; [intros x []|].
-    intros Hn. contradiction.
+    split; [intros Hn; contradiction|intros x []].
   - assert (Hnot : ~ In i done) by (intros H; apply memN_In in H; congruence).
     (* the fold over the children *)
     assert (Hfold : forall cs done0,
                (forall c, In c cs -> (c < i)%nat) -> Inv C done0 ->
                exists ext, fold_left (fun acc c => dfs f C c acc) cs done0 = done0 ++ ext
                            /\ Inv C (done0 ++ ext) /\ (forall c, In c cs -> In c (done0 ++ ext))
-                           /\ (forall x, In x ext -> (x < i)%nat)).
+                           /\ (forall x, In x ext -> (x < i)%nat)
+                           /\ (forall x, In x ext -> In x cs \/
+                                                      exists y, In y ext /\ In x (children (nth y C FalseN)))).
     { clear Hinv Hnot Em done.
       induction cs as [|c cs IHcs]; intros done0 Hcs Hinv0.
       - exists []. rewrite app_nil_r.
-        split; [reflexivity|]. split; [exact Hinv0|]. split; intros x [].
+        split; [reflexivity|]. split; [exact Hinv0|]. split; [intros x []|]. split; intros x [].
       - cbn [fold_left].
         assert (Hc : (c < i)%nat) by (apply Hcs; now left).
-        destruct (IHf c done0 ltac:(lia) ltac:(lia) Hinv0) as [e1 [E1 [I1 [In1 [B1 _]]]]].
+        destruct (IHf c done0 ltac:(lia) ltac:(lia) Hinv0) as [e1 [E1 [I1 [In1 [B1 [_ Pa1]]]]]].
         rewrite E1.
         destruct (IHcs (done0 ++ e1) ltac:(intros c' Hc'; apply Hcs; now right) I1)
-          as [e2 [E2 [I2 [In2 B2]]]].
+          as [e2 [E2 [I2 [In2 [B2 Pa2]]]]].
         exists (e1 ++ e2). rewrite app_assoc.
-        split; [exact E2|]. split; [exact I2|]. split.
+        split; [exact E2|]. split; [exact I2|]. split; [|split].
         + intros c' [<-|Hc']; [|now apply In2].
           rewrite <- app_assoc. apply in_app_iff in In1. rewrite !in_app_iff. tauto.
         + intros x Hx. apply in_app_iff in Hx. destruct Hx as [Hx|Hx]; [|now apply B2].
-          specialize (B1 x Hx). lia. }
-    destruct (Hfold (rev (children (nth i C FalseN))) done) as [ext [E [I [Inc B]]]].
+          specialize (B1 x Hx). lia.
+        + intros x Hx. apply in_app_iff in Hx. destruct Hx as [Hx|Hx].
+          * destruct (Pa1 x Hx) as [->|[y [Hy Hxy]]]; [left; now left|].
+            right. exists y. split; [apply in_app_iff; now left|exact Hxy].
+          * destruct (Pa2 x Hx) as [Hin|[y [Hy Hxy]]]; [left; now right|].
+            right. exists y. split; [apply in_app_iff; now right|exact Hxy]. }
+    destruct (Hfold (rev (children (nth i C FalseN))) done) as [ext [E [I [Inc [B Pa]]]]].
     + intros c Hc. apply in_rev in Hc. now apply (idx_ok_nth C i FalseN Hok Hi c Hc).
     + exact Hinv.
-    + rewrite E. exists (ext ++ [i]). rewrite app_assoc. split; [reflexivity|]. split; [|split; [|split]].
-      * apply Inv_snoc; [exact I|exact Hi|]. intros c Hc. apply Inc. now apply in_rev in Hc.
+    + rewrite E. exists (ext ++ [i]). rewrite app_assoc. split; [reflexivity|]. split; [|split; [|split; [|split]]].
+      * apply Inv_snoc; [exact I|exact Hi| |].
+        -- intros c Hc. apply Inc. now apply in_rev in Hc.
+        -- intros Hin. apply in_app_iff in Hin. destruct Hin as [Hin|Hin]; [contradiction|].
+           specialize (B i Hin). lia.
       * apply in_app_iff. right. now left.
       * intros x Hx. apply in_app_iff in Hx. destruct Hx as [Hx|[<-|[]]]; [|lia].
         specialize (B x Hx). lia.
       * intros _. now exists ext.
+      * intros x Hx. apply in_app_iff in Hx. destruct Hx as [Hx|[<-|[]]]; [|now left].
+        right. destruct (Pa x Hx) as [Hin|[y [Hy Hxy]]].
+        -- exists i. split; [apply in_app_iff; right; now left|now apply in_rev in Hin].
+        -- exists y. split; [apply in_app_iff; now left|exact Hxy].
 Qed.
 
 Lemma closedR_prefix C l :
@@ -223,18 +241,28 @@ Proof.
     now apply IH.
 Qed.
 
-Theorem post_order_good C :
+Lemma post_order_spec C :
   C <> [] -> idx_ok C = true ->
-  good_order C (post_order C) /\ exists pre, post_order C = pre ++ [root C].
+  good_order C (post_order C) /\ (exists pre, post_order C = pre ++ [root C])
+  /\ NoDup (post_order C)
+  /\ (forall x, In x (post_order C) -> x = root C \/
+                 exists y, In y (post_order C) /\ In x (children (nth y C FalseN))).
 Proof.
   intros Hne Hok. unfold post_order.
   assert (Hr : (length C - 1 < length C)%nat) by (destruct C; [congruence|cbn; lia]).
-  destruct (dfs_spec C Hok (length C) (length C - 1) [] Hr Hr) as [ext [E [I [_ [_ Hl]]]]].
-  { split; [exact I|intros x []]. }
-  cbn [app] in E, I. rewrite E. split.
+  destruct (dfs_spec C Hok (length C) (length C - 1) [] Hr Hr) as [ext [E [I [_ [_ [Hl Pa]]]]]].
+  { split; [exact I|intros x []|constructor]. }
+  cbn [app] in E, I. rewrite E. split; [|split; [|split]].
   - split; [apply I|]. apply closedR_prefix. apply I.
   - destruct (Hl (fun H => H)) as [pre ->]. now exists pre.
+  - apply I.
+  - exact Pa.
 Qed.
+
+Theorem post_order_good C :
+  C <> [] -> idx_ok C = true ->
+  good_order C (post_order C) /\ exists pre, post_order C = pre ++ [root C].
+Proof. intros Hne Hok. destruct (post_order_spec C Hne Hok) as [H1 [H2 _]]. now split. Qed.
 
 (* ---------- reflatten preserves every natural pass at the root ---------- *)
 Lemma reflatten_nonempty C : C <> [] -> idx_ok C = true -> reflatten C <> [].
